@@ -175,14 +175,28 @@ def run(rep, tier, rng):
             seen.add(sig)
             rep.violation(sig, f"{kind}: {str(detail)[:300]} on #[derive_ex({f['attr']})] {f['item'][:300]}",
                           {"entry": f["entry"], "attr": f["attr"], "item": f["item"], "kind": kind, "detail": detail})
-        # cross-process determinism on the unmodified seeds (fresh process, fresh hash seeds)
+        # cross-process determinism on the unmodified seeds and on fresh generator output (fresh process, fresh hash seeds)
+        more = []
+        for _ in range(3000 if tier == "quick" else 30000):
+            it, derived = gens.gen_type_item(rng)
+            elems, shared = gens.gen_trait_args(rng, derived)
+            more.append({"entry": "attr", "attr": ", ".join(elems + shared), "item": gens.render(it)})
+        seeds_x = seeds + extra + more
         reqs = [{"id": i, "entry": s["entry"], "attr": s["attr"], "item": s["item"], "want_out": True}
-                for i, s in enumerate(seeds + extra)]
+                for i, s in enumerate(seeds_x)]
         a = C.expand(reqs)
         b = C.expand(reqs)
         nd = 0
-        for x, y, s in zip(a, b, seeds + extra):
+        for x, y, s in zip(a, b, seeds_x):
             rep.count("cross_process_pairs")
+            if x.get("status") == "panic":
+                rep.violation("C16|panic|" + str(x.get("panic_msg"))[-120:], f"panic: {x.get('panic_msg')} on #[derive_ex({s['attr']})] {s['item'][:200]}",
+                              {"entry": s["entry"], "attr": s["attr"], "item": s["item"], "kind": "panic"})
+                continue
+            if x.get("det") is False or y.get("det") is False:
+                rep.violation("C16|nondeterministic", f"two expansions in one process differ: #[derive_ex({s['attr']})] {s['item'][:200]}",
+                              {"entry": s["entry"], "attr": s["attr"], "item": s["item"], "kind": "nondeterministic"})
+                continue
             if x.get("out") != y.get("out") or x.get("status") != y.get("status"):
                 nd += 1
                 rep.violation("C16|nondeterministic-across-processes",
